@@ -18,7 +18,7 @@
    K-C04-operands); on cyclic models that are not well-founded the statement is refuted (witness 7,
    K-WG-cycles).  Those regions are decided on every run by the oracle of run/lib/graphspec.py. *)
 From Verif Require Import Base.Str Base.Outcome Model.Ast Model.Printer Model.WGraph Model.WWeights Spec.Weights
-  Spec.GraphWeights Proofs.StrategyProofs Proofs.WeightsProofs Proofs.Witnesses Proofs.GraphPrims Proofs.DagWeights Proofs.DagCheck.
+  Spec.GraphWeights Proofs.StrategyProofs Proofs.WeightsProofs Proofs.Witnesses Proofs.GraphPrims Proofs.DagWeights Proofs.DagCheck Proofs.BuilderFresh Proofs.DagModel.
 
 (* 1. union and plain relations: a type is present iff some operand edge has it, with the largest weight *)
 Theorem C04_union_strategy : forall ws k,
@@ -98,3 +98,11 @@ Theorem C04_acyclic_domain_inhabited :
   in_dag_domain m_good = true /\ is_ok (build_weighted None m_good) = true /\
   in_dag_domain m_order = false /\ in_dag_domain m_empty = false.
 Proof. split; [apply m_good_in_domain|]. split; [apply m_good_in_domain|]. split; [exact m_order_outside_domain|exact m_empty_outside_domain]. Qed.
+
+(* 11. for graphs the builder made, "nothing has a weight yet" holds by construction: only the rank check and the
+       placeholder check remain as hypotheses *)
+Theorem C04_built_graph_weights : forall m g, wbuild m = Ok g -> acyclic_check g = true ->
+  forall o g', build_weighted o m = Ok g' ->
+  forall x, In x (order_used o g) -> is_terminal (n_type (node_of g x)) = false ->
+    n_weights (node_of g' x) = spec_weights g x.
+Proof. exact built_weights. Qed.
